@@ -274,7 +274,7 @@ _t("map_or", [mapcfg("map_or_tm.cfg", 2, 2, timeout=3000)])
 _t("map_mv", [mapcfg("map_mv_tm.cfg", 1, 2, timeout=3000), mapcfg("map_mv_q3k.cfg", 1, 3, timeout=3000)])   # q3k: three keys (ordered walks over both key sets)
 _t("map_map_or", [mapcfg("map_map_or_t.cfg", 1, 2, timeout=3000)])
 _t("map_map_mv", [mapcfg("map_map_mv_t.cfg", 1, 1, timeout=3000)])
-_t("simple", [simplecfg("lww3", "lww"), simplecfg("pncounter3", "pncounter"), simplecfg("gcounter4", "gcounter")])   # pncounter3: 3 replicas x 2 ops (7 k states); gcounter4: 2 replicas x 4 ops + reset_remove (71 k states); PNCounter 3 x 3 does not finish in 5 min
+_t("simple", [simplecfg("lww3", "lww"), simplecfg("pncounter3", "pncounter"), simplecfg("gcounter4", "gcounter"), simplecfg("gset3", "gset")])   # pncounter3: 3 replicas x 2 ops (7 k states); gcounter4: 2 replicas x 4 ops + reset_remove (71 k states); PNCounter 3 x 3 does not finish in 5 min
 _t("list", [])   # 3 replicas x 4 ops and 2 x 5 ops both run to several GB of dump: thorough = quick configs + 100 longer random histories
 _t("glist", [{"cfg": "glist_t3.cfg", "module": "MC_List.tla", "flags": ["--persist", "--laws"], "invariants": INV_LIST, "timeout": 3000},
              {"cfg": "glist_t2.cfg", "module": "MC_List.tla", "flags": ["--persist", "--laws"], "invariants": INV_LIST, "timeout": 3000}])
